@@ -309,6 +309,57 @@ class EcDsa(Base):
                     finally:
                         ctx.end()
 
+        # ---------------- the final comparison v == r is exact: in pre-hashed mode anyone can steer the recomputed point
+        # (pick a, b; R = aG + bQ; s' = r'/b; digest e = a s'): the verifier then recomputes exactly x(R) mod n whatever
+        # r' is, so r' can be ANY structured neighbour of the right value - low digits only, high digits only, one
+        # digit or octet altered, +-2^(64 j) - and must be refused unless it IS the right value
+        dvk, Qk = keys[rng.randrange(len(keys))]
+        for it in range(2 if q else 8):
+            if not self.mine():
+                continue
+            a_s, b_s = rng.randrange(1, n), rng.randrange(1, n)
+            Rk = E.add(E.mul(a_s, G), E.mul(b_s, Qk))
+            if Rk is None:
+                continue
+            r0 = Rk[0] % n
+            W_ = 64
+            nd = (n.bit_length() + W_ - 1) // W_
+            cands = [("exact", r0)]
+            for j in range(1, nd):
+                cands.append(("low-%d-digits" % j, r0 & ((1 << (W_ * j)) - 1)))
+                cands.append(("high-digits-only", (r0 >> (W_ * j)) << (W_ * j)))
+                cands.append(("plus-2^%d" % (W_ * j), r0 + (1 << (W_ * j))))
+                cands.append(("minus-2^%d" % (W_ * j), r0 - (1 << (W_ * j))))
+                cands.append(("digit-%d-zeroed" % j, r0 & ~(((1 << W_) - 1) << (W_ * j))))
+            for sh in (0, 8, 56, 64, 120, 248):
+                cands.append(("octet-altered", r0 ^ (0x01 << sh)))
+                cands.append(("octet-altered", r0 ^ (0x80 << sh)))
+            cands.append(("shifted-right-one-digit", r0 >> W_))
+            cands.append(("shifted-left-one-digit", (r0 << W_) % (1 << (W_ * nd))))
+            for lab, rp in cands:
+                if not (0 < rp < n):
+                    continue
+                sp = rp * pow(b_s, -1, n) % n
+                ev = a_s * sp % n
+                if sp == 0:
+                    continue
+                dg = ev.to_bytes((n.bit_length() + 7) // 8, "big")
+                if cprt.bits2int(dg, n) != ev:
+                    continue
+                if not ctx.begin("cp_ecdsa_ver|steered-point,prehashed|r=%s" % lab, [cname, hx(rp)]):
+                    continue
+                try:
+                    mv = self.model_ecdsa(rp, sp, dg, 1, Qk)
+                    lv = self.lib_ecdsa(rp, sp, dg, 1, Qk)
+                    ctx.check((lv == "acc") == bool(mv), ctx.cur_key + ("|rejected" if mv else "|accepted"),
+                              {"lib": lv, "model": bool(mv), "r": hx(rp), "right_r": hx(r0), "s": hx(sp), "digest": dg.hex(),
+                               "Q": [hx(Qk[0]), hx(Qk[1])]})
+                except MonitorViolation as e:
+                    ctx.fail(ctx.cur_key + "|" + e.kind, e.detail)
+                finally:
+                    ctx.end()
+
+        if p > n + 1:
             # the same construction for EC-Schnorr: P = (n + j, y), e = H(m || x_P mod n), any s, Q = e^-1 (P - s G)
             for j, Pp in cand:
                 if not self.mine():
